@@ -496,11 +496,25 @@ func (env *SpecEnv) evalQuant(x *SExpr) *Val {
 	}
 	// change of variables: quantify over the element address instead of the index so that
 	// the select pattern is a plain variable (array property fragment; robust E-matching)
-	if len(bnames) == 1 && strings.HasPrefix(decls[0], "("+bnames[0]+" Int") {
-		vn := bnames[0]
+	// (each integer bound variable separately, when it indexes a slice whose base does not
+	// depend on any bound variable)
+	origNames := append([]string(nil), bnames...)
+	for vi := range bnames {
+		if len(bnames) > 3 || !strings.HasPrefix(decls[vi], "("+bnames[vi]+" Int") || x.Name != "forall" {
+			// existentials keep the index form: their skolem term (select A (+ ptr j)) then
+			// matches both the index-form and the address-form triggers of universal facts
+			continue
+		}
+		vn := bnames[vi]
+	useLoop:
 		for _, u := range uses {
-			if strings.Contains(u.ptr, vn) || strings.Contains(u.ptr, "pa!") || strings.Contains(u.idx, "pa!") {
+			if strings.Contains(u.ptr, "pa!") || strings.Contains(u.idx, "pa!") {
 				continue
+			}
+			for _, on := range origNames {
+				if strings.Contains(u.ptr, on) || (on != vn && strings.Contains(u.idx, on)) {
+					continue useLoop
+				}
 			}
 			e0, ok := affineRest(u.idx, vn)
 			if !ok {
@@ -531,8 +545,8 @@ func (env *SpecEnv) evalQuant(x *SExpr) *Val {
 			for i := range qfacts {
 				qfacts[i] = sub(qfacts[i])
 			}
-			decls[0] = fmt.Sprintf("(%s Int)", av)
-			bnames[0] = av
+			decls[vi] = fmt.Sprintf("(%s Int)", av)
+			bnames[vi] = av
 			break
 		}
 	}
@@ -568,9 +582,32 @@ func (env *SpecEnv) evalQuant(x *SExpr) *Val {
 // used directly as an array index (after the change of variables).
 func selectPatterns(body string, bnames []string) string {
 	if len(bnames) != 1 {
+		// several bound variables: one multi-pattern with a select term per variable
+		if len(bnames) > 3 {
+			return ""
+		}
+		var terms []string
+		for _, v := range bnames {
+			ps := selectPatternTerms(body, v)
+			if len(ps) == 0 {
+				return ""
+			}
+			terms = append(terms, ps[0])
+		}
+		return ":pattern (" + strings.Join(terms, " ") + ")"
+	}
+	ps := selectPatternTerms(body, bnames[0])
+	if len(ps) == 0 || len(ps) > 6 {
 		return ""
 	}
-	v := bnames[0]
+	var pats []string
+	for _, p := range ps {
+		pats = append(pats, ":pattern ("+p+")")
+	}
+	return strings.Join(pats, " ")
+}
+
+func selectPatternTerms(body string, v string) []string {
 	seen := map[string]bool{}
 	var pats []string
 	needle := " " + v + ")"
@@ -595,16 +632,13 @@ func selectPatterns(body string, bnames []string) string {
 				pat := "(select " + body[st:end]
 				if !strings.ContainsAny(body[st:k], "()") && !seen[pat] {
 					seen[pat] = true
-					pats = append(pats, ":pattern ("+pat+")")
+					pats = append(pats, pat)
 				}
 			}
 		}
 		i = end
 	}
-	if len(pats) == 0 || len(pats) > 6 {
-		return ""
-	}
-	return strings.Join(pats, " ")
+	return pats
 }
 
 func (env *SpecEnv) evalBin(x *SExpr) *Val {
@@ -1108,6 +1142,16 @@ func (env *SpecEnv) evalCall(x *SExpr) *Val {
 			}
 			k := sizeOf(elemType(sv.T))
 			return boolVal(fmt.Sprintf("(and (<= %s %s) (< %s (+ %s %s)))", sv.S[0], pv.S[0], pv.S[0], sv.S[0], mulK(k, sv.S[2])))
+		case "disjoint":
+			// disjoint(s, t): the backing arrays (up to cap) of the two slices share no address
+			sv := env.eval(args[0])
+			tv := env.eval(args[1])
+			if sv.K != KSlice || tv.K != KSlice {
+				env.fail("disjoint: both arguments must be slices")
+			}
+			ks := sizeOf(elemType(sv.T))
+			kt := sizeOf(elemType(tv.T))
+			return boolVal(fmt.Sprintf("(or (<= (+ %s %s) %s) (<= (+ %s %s) %s))", sv.S[0], mulK(ks, sv.S[2]), tv.S[0], tv.S[0], mulK(kt, tv.S[2]), sv.S[0]))
 		case "obj":
 			v := env.eval(args[0])
 			if v.K == KIface {
@@ -1126,6 +1170,17 @@ func (env *SpecEnv) evalCall(x *SExpr) *Val {
 				a = v.S[1]
 			}
 			return &Val{T: t, K: KInt, S: []string{a}}
+		case "asslice":
+			// asslice(T, x): the dynamic value of interface x viewed as a []T (boxed slice header)
+			t := e.w.resolveType(env.pkg, args[0].String())
+			if t == nil {
+				env.fail("asslice(T, x): unknown element type %s", args[0])
+			}
+			v := env.eval(args[1])
+			if v.K != KIface {
+				env.fail("asslice(T, x) needs an interface value")
+			}
+			return e.unbox(env.cur, v, types.NewSlice(t))
 		case "outer":
 			// outer(E): an integer expression of the enclosing function (closure contracts). While
 			// the closure body is verified it is a rigid unknown; where the closure is handed to a
